@@ -20,7 +20,7 @@ ASSUMPTIONS = [
 ]
 
 SMALL_RX = {"gpp_h", "gpp_h+r", "gpp1_h", "gpp1_h+r", "d3pi_h", "d3pi_h+r", "ppg_h", "ppg_h+r", "gpp_c"}
-N_EXPR = 81
+TWINS = [["twin:bw:plain", "twin:bw:named", "twin:bw:swave"], ["twin:rho:plain", "twin:rho:named", "twin:rho:abs"]]
 
 
 def generate(seed_: int, run: int, reactions: list[str]) -> dict:
@@ -43,8 +43,15 @@ def generate(seed_: int, run: int, reactions: list[str]) -> dict:
         files.append(("model", name, fp))
     for k in range(rng.choice([1, 2, 3]) if n_models else rng.choice([2, 3, 4])):
         name = f"expr{k}.pkl"
-        ops.append({"op": "dump_expr", "e": rng.randrange(2 * N_EXPR), "file": name})
+        ops.append({"op": "dump_expr", "e": rng.randrange(10**6), "file": name})
         files.append(("expr", name, False))
+    if rng.random() < 0.35:
+        # expressions that differ in one non-SymPy attribute only, so that a reader meets both
+        group = rng.choice(TWINS)
+        for k, member in enumerate(rng.sample(group, k=rng.choice([2, 3]))):
+            name = f"twin{k}.pkl"
+            ops.append({"op": "dump_expr", "e": member, "file": name})
+            files.append(("expr", name, False))
     # same-process loads, possibly after more work in the writer
     for kind, name, fp in files:
         if rng.random() < 0.5:
